@@ -4,7 +4,9 @@ import (
 	"fmt"
 	"go/token"
 	"go/types"
+	"os"
 	"regexp"
+	"runtime/debug"
 	"sort"
 	"strings"
 	"sync"
@@ -14,13 +16,13 @@ import (
 
 // Val is a symbolic Go value: a vector of SMT leaves matching leavesOf(Typ).
 type Val struct {
-	Typ   types.Type
-	Ts    []T
-	Addr  *Addr    // for pointer registers produced by Alloc/FieldAddr/IndexAddr/Global
-	Clo   *Closure // statically known function value
-	Tuple []Val    // for multi-value results
-	Untyped bool   // untyped constant from a contract expression
-	ConstInt *string // decimal text for untyped int constants
+	Typ      types.Type
+	Ts       []T
+	Addr     *Addr    // for pointer registers produced by Alloc/FieldAddr/IndexAddr/Global
+	Clo      *Closure // statically known function value
+	Tuple    []Val    // for multi-value results
+	Untyped  bool     // untyped constant from a contract expression
+	ConstInt *string  // decimal text for untyped int constants
 }
 
 type Closure struct {
@@ -41,16 +43,16 @@ const (
 )
 
 type Addr struct {
-	Kind   AddrKind
-	Typ    types.Type // pointee type
-	Ref    T          // aField, aCell
-	Struct types.Type // aField: struct type (named where possible)
-	Idx    int        // aField
-	Base   T          // aElem
-	Index  T          // aElem (absolute index into backing array), aLocalElem
-	Cell   *Cell      // aLocal
-	Off    int        // aLocal leaf offset
-	Global *ssa.Global
+	Kind     AddrKind
+	Typ      types.Type // pointee type
+	Ref      T          // aField, aCell
+	Struct   types.Type // aField: struct type (named where possible)
+	Idx      int        // aField
+	Base     T          // aElem
+	Index    T          // aElem (absolute index into backing array), aLocalElem
+	Cell     *Cell      // aLocal
+	Off      int        // aLocal leaf offset
+	Global   *ssa.Global
 	GhostKey string
 }
 
@@ -94,22 +96,22 @@ func (s *State) clone() *State {
 }
 
 type Obligation struct {
-	Name   string
-	Kind   string
-	Func   string
-	Tags   []string
-	PC     T
-	Goal   T
-	NDecl  int
-	NFact  int
-	Pos    token.Position
-	Cover  bool // must be satisfiable (vacuity guard)
-	MustFail bool // must NOT be provable (vacuity guard over all facts)
-	ExitCover bool // reachability of one return: `unsat` is reported as a note (dead or vacuous path)
-	SiteCover bool // reachability of an asserted call site: `unsat` means the protocol obligation there is vacuous
+	Name         string
+	Kind         string
+	Func         string
+	Tags         []string
+	PC           T
+	Goal         T
+	NDecl        int
+	NFact        int
+	Pos          token.Position
+	Cover        bool // must be satisfiable (vacuity guard)
+	MustFail     bool // must NOT be provable (vacuity guard over all facts)
+	ExitCover    bool // reachability of one return: `unsat` is reported as a note (dead or vacuous path)
+	SiteCover    bool // reachability of an asserted call site: `unsat` means the protocol obligation there is vacuous
 	ThoroughOnly bool // solved in the thorough tier only (deferred in quick)
-	Splits []T    // optional case split of PC (disjunction equals PC): each case may be proved separately
-	Detail string
+	Splits       []T  // optional case split of PC (disjunction equals PC): each case may be proved separately
+	Detail       string
 	// model query support: values to print when sat
 	Watch []WatchTerm
 }
@@ -134,10 +136,10 @@ type VC struct {
 	nEpoch  int
 	nCell   int
 
-	classSort map[string]string
-	strIDs    map[string]T
-	subSeen   map[string]bool
-	funSeen   map[string]bool
+	classSort  map[string]string
+	strIDs     map[string]T
+	subSeen    map[string]bool
+	funSeen    map[string]bool
 	ghostTypes map[string]types.Type
 
 	Imprecise   []string
@@ -148,23 +150,24 @@ type VC struct {
 	UsedLemmas  map[string]bool
 	Dropped     []string
 
-	NoPanic bool
-	nameCount map[string]int
-	fsetDeclared bool
-	Fatal   string // set when the function could not be processed
+	NoPanic        bool
+	nameCount      map[string]int
+	fsetDeclared   bool
+	Fatal          string // set when the function could not be processed
 	ContractErrors []string
-	rootFrame *Frame
-	inQuant int
-	factSyms map[int][]string
-	mu       sync.Mutex
-	defs     map[string]string
-	factGuard map[int]string     // fact index -> path condition guarding it
-	factDef   map[int]string     // fact index -> name it defines (definitional equalities)
-	knownAt  map[string][]string // fact -> path conditions under which it was assumed
-	pcParent map[string][]string // pc -> path conditions it implies
-	pcMemo   map[string]map[string]bool
-	pcSplits map[string][]T
-	freshRefs []T
+	rootFrame      *Frame
+	inQuant        int
+	factSyms       map[int][]string
+	mu             sync.Mutex
+	defs           map[string]string
+	factGuard      map[int]string      // fact index -> path condition guarding it
+	factDef        map[int]string      // fact index -> name it defines (definitional equalities)
+	knownAt        map[string][]string // fact -> path conditions under which it was assumed
+	pcParent       map[string][]string // pc -> path conditions it implies
+	pcMemo         map[string]map[string]bool
+	pcSplits       map[string][]T
+	freshRefs      []T
+	hookMatched    map[*Clause]bool
 }
 
 // splitsFor finds a case split for pc: the disjuncts of the nearest merged path condition it implies.
@@ -329,6 +332,9 @@ func (vc *VC) define(hint, sort string, t T) T {
 }
 
 func (vc *VC) assume(pc, fact T) {
+	if fact == False && os.Getenv("GOVC_DEBUG_FALSE") != "" {
+		fmt.Fprintf(os.Stderr, "assume false under %s\n%s\n", pc, debug.Stack())
+	}
 	f := Imp(pc, fact)
 	if f == True {
 		return
@@ -1066,7 +1072,7 @@ func (vc *VC) addrOfPointer(v Val, pointee types.Type) *Addr {
 // Globals and strings
 
 func (vc *VC) globalRef(g *ssa.Global) T {
-	name := "gv_glob_" + smtName(g.Pkg.Pkg.Name()+"."+g.Name())
+	name := "gv_glob_" + smtName(keyPkgName(g.Pkg.Pkg)+"."+g.Name())
 	if _, ok := vc.declSet[name]; !ok {
 		vc.declare(name, SortRef)
 		h := hashBig(g.Pkg.Pkg.Path() + "." + g.Name())
@@ -1084,7 +1090,7 @@ func (vc *VC) globalValue(g *ssa.Global) Val {
 	out := make([]T, len(ls))
 	first := false
 	for i, l := range ls {
-		name := "gv_gval_" + smtName(g.Pkg.Pkg.Name()+"."+g.Name()+l.Path)
+		name := "gv_gval_" + smtName(keyPkgName(g.Pkg.Pkg)+"."+g.Name()+l.Path)
 		if _, ok := vc.declSet[name]; !ok {
 			first = true
 			vc.declare(name, l.Sort)
